@@ -11,7 +11,7 @@ use std::str::FromStr;
 
 /// process environment of a case: `NAME=value` pairs that are set; everything else matching
 /// the names we use is unset
-pub const ENV_NAMES: [&str; 4] = ["VP_HOME_DIR", "VP_EMPTY", "VP_TOKEN_1", "PROJECT_ROOT"];
+pub const ENV_NAMES: [&str; 7] = ["VP_HOME_DIR", "VP_EMPTY", "VP_TOKEN_1", "PROJECT_ROOT", "VP_N\u{663}", "VP_\u{c9}", "VP_\u{ff11}"];
 
 fn apply_env(vars: &[(String, String)]) {
     for n in ENV_NAMES {
@@ -234,7 +234,7 @@ pub fn unnamed_case(out: &mut Out, w: &mut Worker, rc: &mut ReqCases, text: &str
     out.evaluations += 1;
     let ans = w.call(&format!("u {} {}", hex(text), env_field(vars)));
     let (alpha, table) = ext_table(text);
-    rc.lines.push(format!("unnamed\t{}\t{}\t{}\t{}\t{}", hex(text), alpha, if table.is_empty() { "-".to_string() } else { table }, env_field(vars), hex("/work")));
+    rc.lines.push(format!("unnamed\t{}\t{}\t{}\t{}\t{}", hex(text), alpha, if table.is_empty() { "-".to_string() } else { table }, env_field(vars), hex(&std::env::current_dir().unwrap().to_string_lossy())));
     rc.envs.push(vars.to_vec());
     out.impl_out.push(corr_part(&ans));
     let input = serde_json::json!({"text": text, "feature": "non-pep508-extensions", "entry": "UnnamedRequirement::parse"});
@@ -417,7 +417,7 @@ pub fn gen_deriv(rng: &mut Rng, p: &Pools) -> Deriv {
         // the parsed URL ends in `;` / `#` although the text does not (F20)
         "https://x.org/a;${VP_EMPTY}", "https://x.org/a#${VP_EMPTY}", "https://x.org/a;\u{1}", "https://x.org/b#\u{1f}", "https://x.org/${VP_TOKEN_1}",
         // percent signs in the path and the fragment of file URLs (decoded by the extension feature)
-        "file:///tmp/p#x%2541", "file:///tmp/a%2541/b#c%25d", "file:///tmp/p%20q#egg=a%20b", "https://x.org/p#x%2541"];
+        "file:///tmp/p#x%2541", "file:///tmp/a%2541/b#c%25d", "file:///tmp/p.tar.gz#egg=pkg&subdirectory=python%2Fpkg", "file:///tmp/p%20q#egg=a%20b", "https://x.org/p#x%2541"];
     let name = rng.pick(&names).to_string();
     let ex = if rng.chance(1, 2) { None } else { let n = rng.below(3); Some((0..n).map(|_| rng.pick(&extras).to_string()).collect()) };
     let (sp, url) = match rng.below(4) {
@@ -566,6 +566,23 @@ pub fn run(out: &mut Out, tier: &str, seed: u64, prop: &str) {
     }
     // ---- hostile ---------------------------------------------------------------------------------------
     if prop == "C06" {
+        // every whitespace position of error-producing and valid shapes filled with 1-, 2- and 3-byte blanks
+        {
+            let seeds = ["n[a-\u{1}]", "n[a-\u{1},b]", "n[a\u{1}-]", "n\u{1}[\u{1}a_\u{1}]", "n[a\u{1}\u{e9}]", "n[dev,\u{1}b_\u{1},c]\u{1}>=\u{1}1.0", "n\u{1}@\u{1}https://h/p;\u{1}#x",
+                "n\u{1}(\u{1}>=1\u{1},\u{1}<2\u{1})\u{1}x", "n\u{1}>=1\u{1};\u{1}os_name\u{1}==\u{1}'a'\u{1}x", "n[a]\u{1}@\u{1}file:///p\u{1};\u{1}os_name\u{1}~=\u{1}'x'\u{1}y",
+                "n-\u{1}>=1", "n_\u{1}[a]", "n.\u{1};x", "n[a,\u{1}]", "n[\u{1},a]", "n\u{1}(\u{1}>=1", "n\u{1}@\u{1}", "n[a]\u{1}\u{1}x"];
+            for seed in seeds {
+                for blank in [" ", "\u{a0}", "\u{3000}", "\u{2003} ", "\u{a0} ", "\t\u{85}"] {
+                    let text = seed.replace('\u{1}', blank);
+                    req_case(out, &mut w, &mut rc, prop, &text, &vars);
+                    out.evaluations += 1;
+                    let a = w.call(&format!("x {}", hex(text.trim_start_matches('n'))));
+                    if a.starts_with("panic") || a == "dead" { out.oracle_fail("C06", "Extras::parse panicked", serde_json::json!({"text": text})); }
+                    if a.contains("disp=0") || a.contains("boundary=0") { out.oracle_fail("C06", "Extras::parse error not renderable / span off boundary", serde_json::json!({"text": text.trim_start_matches('n')})); }
+                    out.stat("blank_width.cases");
+                }
+            }
+        }
         // trailing input of every width mix after a complete marker (char-counted span)
         {
             let alphabet = ["a", "é", "語", "\u{1F600}"];
@@ -621,12 +638,15 @@ pub fn run(out: &mut Out, tier: &str, seed: u64, prop: &str) {
         // variable expansion
         let urls = ["https://h.org/${VP_HOME_DIR}/a", "https://h.org/${VP_UNSET}/a", "https://h.org/${VP_EMPTY}a", "file://${PROJECT_ROOT}/a", "https://h.org/${vp_lower}", "https://h.org/${}",
             "https://h.org/$VP_HOME_DIR", "https://h.org/${VP_HOME_DIR", "https://h.org/${VP_HOME_DIR}${VP_HOME_DIR}", "https://h.org/$${VP_HOME_DIR}}", "https://h.org/${VP_TOKEN_1}@x", "https://${VP_HOME_DIR}",
-            "https://h.org/a[1]@b{c}$d", "${VP_HOME_DIR}", "https://h.org/${VP HOME}", "https://h.org/${VP_HOME_DIR}/${VP_UNSET}/${VP_TOKEN_1}"];
+            "https://h.org/a[1]@b{c}$d", "${VP_HOME_DIR}", "https://h.org/${VP HOME}", "https://h.org/${VP_HOME_DIR}/${VP_UNSET}/${VP_TOKEN_1}",
+            "https://h.org/${VP_N\u{663}}/a", "https://h.org/${VP_\u{c9}}/a", "https://h.org/${VP_\u{ff11}}/${VP_HOME_DIR}"];
         let envsets: Vec<Vec<(String, String)>> = vec![
             vec![],
             default_vars(),
             vec![("VP_HOME_DIR".into(), "h".into()), ("VP_TOKEN_1".into(), "t;k#n".into()), ("PROJECT_ROOT".into(), "/proj root".into())],
             vec![("VP_HOME_DIR".into(), "${VP_TOKEN_1}".into()), ("VP_TOKEN_1".into(), "x y".into())],
+            // variables whose names contain non-ASCII digits / letters are set, yet must never be expanded
+            vec![("VP_N\u{663}".into(), "odd".into()), ("VP_\u{c9}".into(), "acc".into()), ("VP_\u{ff11}".into(), "wide".into()), ("VP_HOME_DIR".into(), "h".into())],
         ];
         for u in urls {
             for vs in &envsets {
@@ -654,8 +674,8 @@ pub fn run(out: &mut Out, tier: &str, seed: u64, prop: &str) {
             "requests-2.26.0.tar.gz", "foo.whl", "x.zip", "a.tar.bz2", "a.tgz", "pkg-1.0.tar.xz", "A.TAR.GZ", "a.tar", "a.tbz", "a.tar.lzma", "dir/a.whl", "~/x", "\\\\server\\share", "foo.tar.gz.sig",
             "${VP_HOME_DIR}/x", "a.tlz", "a.txz", "a.tar.lz", "b.b.zip", "n.gz", "tar.gz", "x.tar.gz2",
             // non-ASCII text: byte lengths and char counts differ
-            "../pr\u{f6}ject/dist", "https://example.org/p/nump\u{f6}.whl", "./\u{65e5}\u{672c}/p.whl", "/abs/\u{1F600}x", "https://example.org/a#egg=nump\u{f6}"];
-        let suffixes = ["", "[dev]", " ; os_name == 'a'", "[dev,test] ; python_version > '3'", " [x]", "  "];
+            "https://x.org/${VP_HOME_DIR}/a.whl", "git+https://h.org/${VP_TOKEN_1}/r.git", "file://${PROJECT_ROOT}/p", "../pr\u{f6}ject/dist", "https://example.org/p/nump\u{f6}.whl", "./\u{65e5}\u{672c}/p.whl", "/abs/\u{1F600}x", "https://example.org/a#egg=nump\u{f6}"];
+        let suffixes = ["", "[dev]", " ; os_name == 'a'", "[dev,test] ; python_version > '3'", " [x]", "  ", "\u{a0}; os_name == 'a'", "[dev]\u{3000};os_name == 'a'", "\u{b}", "\u{2003} "];
         // generated: every scheme form x rest, first path segments that are / are not valid names, and
         // leading whitespace before every shape
         let mut all: Vec<(String, bool)> = shapes.iter().map(|s| (s.to_string(), true)).collect();
@@ -795,6 +815,22 @@ fn round_trip(out: &mut Out, rc: &mut ReqCases, text: &str, vars: &[(String, Str
         Some(r3) => if !same(&r3) { out.oracle_fail("C08", "serde round trip returns a different requirement", input.clone()); },
         None => out.oracle_fail("C08", "serde round trip fails", input.clone()),
     }
+    // with the extension feature paths and file URLs are rebuilt relative to a working directory: the same
+    // round trip through the entry point that takes one
+    #[cfg(feature = "ext")]
+    {
+        if let Ok(Ok(rw)) = std::panic::catch_unwind(|| Requirement::<VerbatimUrl>::parse(text, "/work")) {
+            let shown_w = rw.to_string();
+            match std::panic::catch_unwind(|| Requirement::<VerbatimUrl>::parse(&shown_w, "/work")) {
+                Ok(Ok(r2)) => {
+                    let eq = r2.name == rw.name && r2.extras == rw.extras && r2.version_or_url == rw.version_or_url && (r2.marker == rw.marker || ((is_false || deprecated) && marker_equiv(&r2.marker, &rw.marker, 7)));
+                    if !eq { out.oracle_fail("C08", "parse(.., working_dir): to_string() parses back to a different requirement", serde_json::json!({"text": text, "rendered": shown_w, "feature": "non-pep508-extensions"})); }
+                }
+                _ => out.oracle_fail("C08", "parse(.., working_dir): to_string() of an accepted requirement does not parse", serde_json::json!({"text": text, "rendered": shown_w, "feature": "non-pep508-extensions"})),
+            }
+            out.stat("c08.working_dir_round_trips");
+        }
+    }
     let _ = (PackageName::from_str("a"), ExtraName::from_str("a"), MarkerTree::TRUE);
 }
 
@@ -905,6 +941,8 @@ fn unnamed_oracle(out: &mut Out, text: &str, shape: &str, suffix: &str) {
     // a bracket group separated from the URL by a space is outside the property's quantifier
     // (is the space part of the path?): not judged
     if suffix.starts_with(' ') && suffix.contains('[') { return; }
+    let vars = default_vars();
+    apply_env(&vars);
     let r = std::panic::catch_unwind(|| UnnamedRequirement::<VerbatimUrl>::parse(text, "/work", &mut pep508_rs::TracingReporter));
     let input = serde_json::json!({"text": text, "feature": "non-pep508-extensions"});
     match r {
@@ -916,6 +954,14 @@ fn unnamed_oracle(out: &mut Out, text: &str, shape: &str, suffix: &str) {
         }
         Ok(Ok(u)) => {
             out.stat("c19.unnamed_accepted");
+            // the URL itself is recovered: for scheme URLs it is the URL of the text after `${NAME}` expansion
+            if shape.starts_with("https://") || shape.starts_with("http://") || shape.starts_with("git+https://") {
+                if let Ok(want) = url::Url::parse(&expand_spec(shape, &vars)) {
+                    if u.url.to_string() != want.to_string() {
+                        out.oracle_fail("C19", &format!("the unnamed parser does not recover the URL: got {}, the expanded text denotes {}", u.url, want), input.clone());
+                    }
+                }
+            }
             if u.url.given() != Some(shape) {
                 out.oracle_fail("C19", &format!("verbatim text not kept: given() = {:?}", u.url.given()), input.clone());
             }
